@@ -41,6 +41,125 @@ let has_u (s : string) = List.exists (fun f -> String.length f > 3 && String.sub
 
 type pend = PNone | PN of (z * bool * bool) option | PL of z list
 
+(* ---------------------------------------------------------------- per-goroutine conformance
+   Replays the event log through the extracted atomic sections of Model/SchedConc.v (the model
+   C02_conc_flat is about): every goroutine's logged child operations must be exactly what its
+   pending section does (which child, start times, results), and its returned values must be
+   the section outcomes.  Only for a top-level composite whose children are single recorded
+   parts (leaves, comp(), step/istep taken atomically) and an explicit start. *)
+type cpc = CIdle | CInNext | CInLeft | CN1 of z * nat | CL1 of nat | CRetN of z * bool | CRetL of z
+
+let conformable (tn : tnode) =
+  tn.kind = "comp" && List.length tn.kids >= 2 &&
+  List.for_all (fun k -> k.kind <> "comp" || k.kids = []) tn.kids
+
+let conform (tn : tnode) (c : cfg) (g : int) (events : string list) : string =
+  let fuel = S (size_cfg c) in
+  let now = past in
+  let nk = List.length tn.kids in
+  let unl = Array.of_list (List.map (fun k -> k.kind = "unl") tn.kids) in
+  match build fuel now c with
+  | Panic _ | OutOfFuel -> "conf=0:model-build"
+  | Ok s0 ->
+    let st = ref s0 in
+    let pcs = Array.make (g + 2) CIdle in
+    let expect : (string * int * string) list array = Array.make (g + 2) [] in  (* op, leaf, value *)
+    let bad = ref "" in
+    let fail m = if !bad = "" then bad := m in
+    let head () = nk - int_of_nat (comp_len !st) in
+    let tv v = match String.split_on_char ':' v with [t; o] -> (z_of_string t, o = "1") | _ -> (z0, false) in
+    let apply gi (r : (sched * outcome) res) (k : sched -> outcome -> unit) =
+      match r with
+      | Ok (c', out) -> st := c'; k c' out
+      | _ -> fail (Printf.sprintf "model-section-panics(g%d)" gi) in
+    let set_out gi out op =
+      match out with
+      | RetN (t, ok) -> pcs.(gi) <- CRetN (t, ok)
+      | RetL v -> pcs.(gi) <- CRetL v
+      | Goto PIdle -> pcs.(gi) <- (if op = 'N' then CInNext else CInLeft)
+      | Goto (N1 (tx, k)) -> pcs.(gi) <- CN1 (tx, k)
+      | Goto (L1 k) -> pcs.(gi) <- CL1 k in
+    let check_next_result gi j (t, ok) out =
+      (match out with
+       | RetN (t', ok') ->
+           if ok <> ok' then fail (Printf.sprintf "g%d next ok differs" gi)
+           else if not (ok && j < nk && unl.(j)) && not (zeq t t') then fail (Printf.sprintf "g%d next time %s model %s" gi (zs t) (zs t'))
+       | Goto (N1 (tx, _)) -> if ok || not (zeq t tx) then fail (Printf.sprintf "g%d parked in N1 but leaf said %s" gi (zs t))
+       | Goto PIdle -> if ok then fail (Printf.sprintf "g%d retries although the leaf gave a token" gi)
+       | _ -> fail "unexpected outcome") in
+    List.iter (fun e ->
+      if !bad = "" then
+      match String.split_on_char '.' e with
+      | [gs; "c"; "N"] -> pcs.(int_of_string gs) <- CInNext
+      | [gs; "c"; "L"] -> pcs.(int_of_string gs) <- CInLeft
+      | [gs; "r"; "N"; v] ->
+          let gi = int_of_string gs in
+          let (t, ok) = tv v in
+          (match pcs.(gi) with
+           | CRetN (t', ok') ->
+               if ok <> ok' || (not ok && not (zeq t t')) then fail (Printf.sprintf "g%d returned %s model %s:%b" gi v (zs t') ok')
+           | _ -> fail (Printf.sprintf "g%d returned from Next but the model section has not returned" gi));
+          pcs.(gi) <- CIdle
+      | [gs; "r"; "L"; v] ->
+          let gi = int_of_string gs in
+          (match pcs.(gi) with
+           | CRetL v' -> if zs v' <> v then fail (Printf.sprintf "g%d Left returned %s model %s" gi v (zs v'))
+           | _ -> fail (Printf.sprintf "g%d returned from Left but the model section has not returned" gi));
+          pcs.(gi) <- CIdle
+      | [gs; "r"; "P"] -> fail ("panic g" ^ gs)
+      | [gs; js; op; v] ->
+          let gi = int_of_string gs and j = int_of_string js in
+          (match expect.(gi) with
+           | (op', j', v') :: rest ->
+               (* second child operation of a write-lock section already executed by the model *)
+               if op <> op' || j <> j' || (v' <> "" && v <> v') then
+                 fail (Printf.sprintf "g%d did %s on part %d (%s), model expects %s on part %d (%s)" gi op j v op' j' v');
+               expect.(gi) <- rest
+           | [] ->
+             if gi >= g then begin
+               (* the explicit Start by the main goroutine *)
+               if op = "S" then (match s_start (z_of_string v) !st with Ok s' -> st := s' | _ -> fail "model-start-panics")
+             end else
+             (match pcs.(gi), op with
+              | CInNext, "N" ->
+                  if j <> head () then fail (Printf.sprintf "g%d Next on part %d, model head is %d" gi j (head ()));
+                  apply gi (sec_next0 fuel now !st) (fun _ out -> check_next_result gi j (tv v) out; set_out gi out 'N')
+              | CN1 (tx, k), "N" ->
+                  (* somebody shifted before us *)
+                  if not (int_of_nat (comp_len !st) < int_of_nat k) then fail (Printf.sprintf "g%d takes a token without shifting, model would shift" gi);
+                  if j <> head () then fail (Printf.sprintf "g%d Next on part %d, model head is %d" gi j (head ()));
+                  apply gi (sec_next1 fuel now !st tx k) (fun _ out -> check_next_result gi j (tv v) out; set_out gi out 'N')
+              | CN1 (tx, k), "S" ->
+                  if int_of_nat (comp_len !st) < int_of_nat k then fail (Printf.sprintf "g%d shifts, model says somebody shifted already" gi);
+                  if j <> head () + 1 then fail (Printf.sprintf "g%d starts part %d, model would start %d" gi j (head () + 1));
+                  if not (zeq (z_of_string v) tx) then fail (Printf.sprintf "g%d starts part %d at %s, model at %s" gi j v (zs tx));
+                  apply gi (sec_next1 fuel now !st tx k) (fun _ out ->
+                    (* the Next on the new head follows in the log *)
+                    (match out with
+                     | RetN (t, ok) -> expect.(gi) <- [("N", j, if ok && j < nk && unl.(j) then "" else zs t ^ ":" ^ field_of_bool ok)]
+                     | _ -> expect.(gi) <- [("N", j, "")]);
+                    set_out gi out 'N')
+              | CInLeft, "L" ->
+                  if j <> head () then fail (Printf.sprintf "g%d Left on part %d, model head is %d" gi j (head ()));
+                  apply gi (sec_left0 fuel now !st) (fun _ out -> set_out gi out 'L')
+              | CL1 k, "L" ->
+                  (* the write section found the length changed: no shift, Left restarts *)
+                  if int_of_nat (comp_len !st) = int_of_nat k then fail (Printf.sprintf "g%d restarts Left, model would shift" gi);
+                  apply gi (sec_left1 fuel now !st k) (fun _ _ -> ());
+                  if j <> head () then fail (Printf.sprintf "g%d Left on part %d, model head is %d" gi j (head ()));
+                  apply gi (sec_left0 fuel now !st) (fun _ out -> set_out gi out 'L')
+              | CL1 k, "N" ->
+                  if int_of_nat (comp_len !st) <> int_of_nat k then fail (Printf.sprintf "g%d probes the head, model says the length changed" gi);
+                  if j <> head () then fail (Printf.sprintf "g%d probes part %d, model head is %d" gi j (head ()));
+                  let (_, ok) = tv v in
+                  if ok then fail (Printf.sprintf "g%d Left consumed a token" gi);
+                  let fin = fst (tv v) in
+                  apply gi (sec_left1 fuel now !st k) (fun _ out ->
+                    expect.(gi) <- [("S", j + 1, zs fin)]; set_out gi out 'L')
+              | _, _ -> fail (Printf.sprintf "g%d child operation %s on part %d outside any section of the model" gi op j)))
+      | _ -> ()) events;
+    if !bad = "" then "conf=1" else "conf=0:" ^ (String.concat "_" (split_blank !bad))
+
 let conc_case (tree : string) (explicit : bool) (plan : string) (obs : string) : string * string * bool =
   leaf_hyp_ok := true;
   let tn = parse_tree tree in
@@ -71,6 +190,7 @@ let conc_case (tree : string) (explicit : bool) (plan : string) (obs : string) :
     let cb = if any_finish_return || lq = "0" then 1 else 0 in
     Printf.sprintf "tbl=1 tok=%s nu=%d uok=1 mono=1 fin=%s stable=1 lq=%s cb=%d pan=0" ts nu
       (match fin with Some f -> zs f | None -> "-") lq cb in
+  let strip_conf (x : string) = Str.global_replace (Str.regexp " conf=[^ ]*") "" x in
   (* ----- model summary *)
   let pred_sum =
     match build fuel now c with
@@ -122,6 +242,9 @@ let conc_case (tree : string) (explicit : bool) (plan : string) (obs : string) :
     a in
   let bad = ref "" in
   let fail s = if !bad = "" then bad := s in
+  (* after a self-start the harness prints times relative to the smallest DoAt time returned;
+     when no such time was returned there is no base to compare start times with *)
+  let have_base = explicit || not (List.mem "tok=-" (split_blank obs_sum) && List.mem "fin=-" (split_blank obs_sum)) in
   let its = ref its0 in
   let started = ref explicit in
   let cur_left () =
@@ -160,7 +283,7 @@ let conc_case (tree : string) (explicit : bool) (plan : string) (obs : string) :
           pend.(gi) <- PNone
       | [gs; js; "S"; v] ->
           let j = int_of_string js in
-          if j >= 0 && j < Array.length wr then begin
+          if j >= 0 && j < Array.length wr && have_base then begin
             let want = starts.(wr.(j).w_first) in
             if not (zeq (z_of_string v) want) then fail (Printf.sprintf "part-%d-started-at %s want %s" j v (zs want))
           end
@@ -188,16 +311,70 @@ let conc_case (tree : string) (explicit : bool) (plan : string) (obs : string) :
     else if String.length obs_sum >= 5 && String.sub obs_sum 0 5 = "tbl=0" then "ok"
     else if obs = "hang" then "BAD:hang"
     else if !bad <> "" then "BAD:" ^ !bad
-    else if drop_mono obs_sum = drop_mono spec_sum && obs_sum <> spec_sum then
+    else if drop_mono (strip_conf obs_sum) = drop_mono spec_sum && strip_conf obs_sum <> spec_sum then
       (* only the per-caller monotonicity bit differs *)
       (if (not explicit) && has_u obs_sum then "BAD:nowait-time-decreases" else "BAD:time-decreases")
-    else if obs_sum <> spec_sum then begin
-      let a = Array.of_list (split_blank obs_sum) and b = Array.of_list (split_blank spec_sum) in
+    else if strip_conf obs_sum <> spec_sum then begin
+      let a = Array.of_list (split_blank (strip_conf obs_sum)) and b = Array.of_list (split_blank spec_sum) in
       let i = ref 0 in
       while !i < Array.length a && !i < Array.length b && a.(!i) = b.(!i) do incr i done;
       let cut s = if String.length s > 60 then String.sub s 0 60 ^ "..." else s in
       Printf.sprintf "BAD:summary got %s want %s" (cut (if !i < Array.length a then a.(!i) else "end")) (cut (if !i < Array.length b then b.(!i) else "end"))
     end
     else "ok" in
+  let pred_sum =
+    if explicit && conformable tn && String.length pred_sum > 5 && String.sub pred_sum 0 9 = "tbl=1 tok" then
+      (* obs carries the constant field conf=1; a replay that does not conform shows up as a disagreement *)
+      Str.global_replace (Str.regexp " pan=0$") (" pan=0 " ^ conform tn c g events) pred_sum
+    else if String.length pred_sum > 9 && String.sub pred_sum 0 9 = "tbl=1 tok" then pred_sum ^ " conf=1" else pred_sum in
   let pred = if log = "" then pred_sum else pred_sum ^ " | " ^ log in
   (pred, v, nparts >= 2 && g >= 2 && total_n >= 2)
+
+
+(* race cases: finite trees, bare leaves, many iterations; every iteration must show the whole
+   token multiset, the finish time, a final Left of 0, one callback, no negative or oversized
+   Left, per-caller monotone times and stability after exhaustion *)
+let race_case (tree : string) (obs : string) : string * string * bool =
+  leaf_hyp_ok := true;
+  let c = cfg_of (parse_tree tree) in
+  let fl = flatten_cfg c in
+  let (its, fin) = items_from z0 fl in
+  let render toks fin lq =
+    let toks = List.sort ZT.compare (List.map zt_of_z toks) in
+    Printf.sprintf "tok=%s fin=%s lq=%s cb=1 lneg=0 lover=0 mono=1 stable=1"
+      (if toks = [] then "-" else String.concat "," (List.map ZT.to_string toks)) (zs fin) lq in
+  let spec =
+    if List.exists is_window its then "unsupported-unlimited-part"
+    else render (List.filter_map (function IT t -> Some t | IW _ -> None) its) fin "0" in
+  let fuel = S (size_cfg c) in
+  let pred =
+    match build fuel past c with
+    | Ok s0 ->
+        (match s_start z0 s0 with
+         | Ok s1 ->
+             let rec drain s toks n =
+               if n > 100000 then "model-does-not-finish" else
+               match s_next fuel past s with
+               | Ok ((s', t), true) -> drain s' (t :: toks) (n + 1)
+               | Ok ((s', t), false) ->
+                   (match s_left fuel past s' with
+                    | Ok (_, k) -> render toks t (zs k)
+                    | _ -> "left-panics")
+               | _ -> "next-panics" in
+             drain s1 [] 0
+         | _ -> "start-panics")
+    | Panic k -> "Pctor:" ^ pk k
+    | OutOfFuel -> "fuel" in
+  let v =
+    if not !leaf_hyp_ok then "BAD:leaf-offsets-not-monotone-or-beyond-duration"
+    else if obs = spec then "ok"
+    else begin
+      let a = Array.of_list (split_blank obs) and b = Array.of_list (split_blank spec) in
+      let i = ref 0 in
+      while !i < Array.length a && !i < Array.length b && a.(!i) = b.(!i) do incr i done;
+      let cut s = if String.length s > 60 then String.sub s 0 60 ^ "..." else s in
+      let got = if !i < Array.length a then a.(!i) else "end" in
+      if got = "var" then "BAD:iterations-differ " ^ cut obs
+      else Printf.sprintf "BAD:race got %s want %s" (cut got) (cut (if !i < Array.length b then b.(!i) else "end"))
+    end in
+  (pred, v, List.length its >= 1)
